@@ -288,6 +288,9 @@ pub fn install_quiet_panic_hook() {
         } else {
             "<non-string panic>".to_string()
         };
+        if std::env::var("FV_LOUD").is_ok() {
+            eprintln!("panic at {loc}: {msg}");
+        }
         LAST_PANIC.with(|p| *p.borrow_mut() = Some(format!("{loc}: {msg}")));
     }));
 }
@@ -438,9 +441,9 @@ pub fn worker<P: Prop>(a: WorkerArgs) -> i32 {
                 evb.frozen = true;
             } else {
                 evb.evaluations += 1;
-                if crumbs {
-                    write_crumb(&a.crumb, &serde_json::to_string(&case).unwrap());
-                }
+            }
+            if crumbs {
+                write_crumb(&a.crumb, &serde_json::to_string(&case).unwrap());
             }
             let mut cx = Cx {
                 prop: P::ID,
